@@ -6,8 +6,14 @@ the observed action of every cell is emitted as Gen/DispatchTable.v and Coq prov
 `table = spec` on all cells (Props/C09.v).
 Tie H / oracle: real files and objects through the same matrix, compared with the direct
 class-method call (deep equality of molecules / written text).
+Histories (no state between calls): the entry points called one after another in one process while
+the file / string / object / stream changes in between -- under ONE persistent mock environment
+(recorded histories = `run` of Model/DispatchSeq.v, decided by Coq shards; theorems C09_seq_*), and
+on real files and objects (every step compared with the class-level codec on the source as it is now;
+returned objects are modified by the caller, files are rewritten in place / replaced / with the old
+time stamp and length).
 """
-import io, os, sys, itertools, json, tempfile
+import io, os, re, sys, itertools, json, tempfile, hashlib, shutil
 import vlib
 from vlib import cq_list, cq_bool
 
@@ -55,103 +61,175 @@ class Sent:
         self.__dict__.update(kw)
 
 
-def observe_cell(ml, c, work):
-    """Run one cell against recording mocks; return the Coq `action` term."""
-    verb, fmt, fsrc, otype, named, tgt, parser, dotted = c
-    ext = FMTS[fmt]
-    stem = "in.put.v2" if dotted else "input"
-    GIVEN_NAME = "given-name-7"
-    log = []
+GIVEN_NAME = "given-name-7"
+TOK_RE = re.compile(r"<D(\d+)>|<W:(\w+):(\w+):(\d+):(\d+)>")
 
-    def classify_src(x, path, data):
-        if isinstance(x, str) and x is data:
-            return "SGivenStr"
-        if isinstance(x, (str, os.PathLike)) and os.path.abspath(os.fspath(x)) == os.path.abspath(str(path)):
-            return "SStreamOfPath"     # handing the path itself to the class method (which opens it) is the same source
-        if hasattr(x, "read") and getattr(x, "name", None) is not None and os.path.abspath(str(x.name)) == os.path.abspath(str(path)) \
-                and "r" in getattr(x, "mode", "") and "b" not in getattr(x, "mode", "") and not x.closed:
-            return "SStreamOfPath"
-        return "SOtherSrc"
 
-    def name_kind(kw):
-        if "name" not in kw:
-            return "NNone"      # not passing name = passing the class method's default None
-        if kw["name"] is None:
-            return "NNone"
-        return "NGiven" if kw["name"] == GIVEN_NAME else "NWrong"
+def tok_text(t):
+    """Text of one token of Model/DispatchSeq.v: ('D', d) | ('W', verb, fmt, o, v) | ('B',)."""
+    if t[0] == "D":
+        return f"<D{t[1]}>"
+    if t[0] == "W":
+        return f"<W:{t[1]}:{t[2]}:{t[3]}:{t[4]}>"
+    return "<?>"
 
-    path = os.path.join(work, stem + "." + (ext if fsrc == "FsSuffix" else "dat"))
-    open(path, "w").write("mock file body\n")
-    data = "mock string body " + ext
 
-    def mk_cls(base, kname):
-        ns = {"_kname": kname}
+def parse_toks(s):
+    if s is None:
+        return [("B",)]
+    out, pos = [], 0
+    for m in TOK_RE.finditer(s):
+        if m.start() != pos:
+            return [("B",)]
+        pos = m.end()
+        out.append(("D", int(m.group(1))) if m.group(1) is not None
+                   else ("W", m.group(2), m.group(3), int(m.group(4)), int(m.group(5))))
+    return out if pos == len(s) else [("B",)]
 
-        def mk(vb, f2):
-            def meth(cls, src, *a, **kw):
-                extra = bool(a) or bool(set(kw) - {"name"})
-                return Sent(kind="call", cls=cls._kname, meth=(vb, f2), src=classify_src(src, path, data),
-                            name=name_kind(kw), extra=extra)
-            return classmethod(meth)
-        for vb, pn in (("VLoad", "load"), ("VLoads", "loads"), ("VLoadAll", "load_all"), ("VLoadsAll", "loads_all")):
-            for f2, fn in (("FXyz", "xyz"), ("FMol2", "mol2")):
-                ns[f"{pn}_{fn}"] = mk(vb, f2)
 
-        def __init__(self, other=None, *a, **kw):
-            self.ctor_arg = other
-            self.ctor_extra = bool(a) or bool(kw)
-        ns["__init__"] = __init__
-        return type("Mock" + kname, (base,), ns)
+def name_kind(kw):
+    if "name" not in kw:
+        return "NNone"      # not passing name = passing the class method's default None
+    if kw["name"] is None:
+        return "NNone"
+    return "NGiven" if kw["name"] == GIVEN_NAME else "NWrong"
 
-    real_mol, real_ens, real_cdx = ml.Molecule, ml.ConformerEnsemble, ml.CDXMLFile
-    MMol = mk_cls(real_mol, "KMol")
-    MEns = mk_cls(real_ens, "KEns")
-    MStruct = mk_cls(ml.Structure, "KStruct")
-    MEnsCls = mk_cls(MEns, "KEnsCls")
 
-    class MockCDX:
-        def __init__(self, p):
-            self.path_ok = os.path.abspath(str(p)) == os.path.abspath(path)
-            self.xfrags = ["frag0", "frag1", "frag2"]
+class MockEnv:
+    """Recording mock classes around the six entry points.  ONE environment (the same mock classes, the
+    same mock objects) serves a whole history of calls, so that state kept between calls -- keyed by
+    path, by string, by class or by object -- is exercised; the one-shot table uses a fresh one per cell.
+    `self.path` / `self.data` are the source the CURRENT call was given."""
 
-        def _parse_fragment(self, fg, name=None, **kw):
-            return Sent(kind="frag", idx=self.xfrags.index(fg), name=name_kind({"name": name}), path_ok=self.path_ok)
+    def __init__(self, ml):
+        env = self
+        self.ml = ml
+        self.path = self.data = None
+        self.objs = {}
 
-        def __getitem__(self, key):
-            return Sent(kind="fragkey", key=key)
+        def read_src(x):
+            try:
+                if isinstance(x, str) and x is env.data:
+                    return x
+                if isinstance(x, (str, os.PathLike)):
+                    with open(x) as f:
+                        return f.read()
+                if hasattr(x, "read"):
+                    return x.read()
+            except Exception:  # noqa
+                pass
+            return None
 
-    class MockObj:
-        def __init__(self):
-            self.calls = []
+        def classify_src(x):
+            path, data = env.path, env.data
+            if isinstance(x, str) and x is data:
+                return "SGivenStr"
+            if path is not None and isinstance(x, (str, os.PathLike)) \
+                    and os.path.abspath(os.fspath(x)) == os.path.abspath(str(path)):
+                return "SStreamOfPath"     # handing the path itself to the class method (which opens it) is the same source
+            if path is not None and hasattr(x, "read") and getattr(x, "name", None) is not None \
+                    and os.path.abspath(str(x.name)) == os.path.abspath(str(path)) \
+                    and "r" in getattr(x, "mode", "") and "b" not in getattr(x, "mode", "") and not x.closed:
+                return "SStreamOfPath"
+            return "SOtherSrc"
 
-        def _rec(self, meth, stream, a, kw):
-            self.calls.append((meth, stream, bool(a) or bool(kw)))
-            if stream is not None:
-                stream.write(f"<<{meth}>>")
+        def mk_cls(base, kname):
+            ns = {"_kname": kname}
 
-        def dump_xyz(self, stream, *a, **kw): self._rec(("VDump", "FXyz"), stream, a, kw)
-        def dump_mol2(self, stream, *a, **kw): self._rec(("VDump", "FMol2"), stream, a, kw)
+            def mk(vb, f2):
+                def meth(cls, src, *a, **kw):
+                    extra = bool(a) or bool(set(kw) - {"name"})
+                    return Sent(kind="call", cls=cls._kname, meth=(vb, f2), src=classify_src(src),
+                                name=name_kind(kw), extra=extra, seen=read_src(src))
+                return classmethod(meth)
+            for vb, pn in (("VLoad", "load"), ("VLoads", "loads"), ("VLoadAll", "load_all"), ("VLoadsAll", "loads_all")):
+                for f2, fn in (("FXyz", "xyz"), ("FMol2", "mol2")):
+                    ns[f"{pn}_{fn}"] = mk(vb, f2)
 
-        def dumps_xyz(self, *a, **kw):
-            self.calls.append((("VDumps", "FXyz"), None, bool(a) or bool(kw)))
-            return Sent(kind="dumps", meth=("VDumps", "FXyz"))
+            def __init__(self, other=None, *a, **kw):
+                self.ctor_arg = other
+                self.ctor_extra = bool(a) or bool(kw)
+            ns["__init__"] = __init__
+            return type("Mock" + kname, (base,), ns)
 
-        def dumps_mol2(self, *a, **kw):
-            self.calls.append((("VDumps", "FMol2"), None, bool(a) or bool(kw)))
-            return Sent(kind="dumps", meth=("VDumps", "FMol2"))
+        self.real = (ml.Molecule, ml.ConformerEnsemble, ml.CDXMLFile)
+        real_ens = ml.ConformerEnsemble
+        self.MMol = mk_cls(ml.Molecule, "KMol")
+        self.MEns = mk_cls(ml.ConformerEnsemble, "KEns")
+        self.MStruct = mk_cls(ml.Structure, "KStruct")
+        self.MEnsCls = mk_cls(self.MEns, "KEnsCls")
 
-    class MockEnsObj(MockObj, real_ens):
-        def __init__(self):
-            MockObj.__init__(self)
+        class MockCDX:
+            def __init__(self, p):
+                self.path_ok = env.path is not None and os.path.abspath(str(p)) == os.path.abspath(str(env.path))
+                self.xfrags = ["frag0", "frag1", "frag2"]
+                self.seen = read_src(p)          # the document is parsed when the object is built
 
-    ml.Molecule, ml.ConformerEnsemble, ml.CDXMLFile = MMol, MEns, MockCDX
-    try:
-        ot = {"OMol": "molecule", "OEns": "ensemble", "OStructCls": MStruct, "OEnsCls": MEnsCls}[otype]
+            def _parse_fragment(self, fg, name=None, **kw):
+                return Sent(kind="frag", idx=self.xfrags.index(fg), name=name_kind({"name": name}),
+                            path_ok=self.path_ok, seen=self.seen)
+
+            def __getitem__(self, key):
+                return Sent(kind="fragkey", key=key)
+        self.MockCDX = MockCDX
+
+        class MockObj:
+            def __init__(self, oid=0):
+                self.calls = []
+                self.oid, self.ver = oid, 0
+
+            def _rec(self, meth, stream, a, kw):
+                tok = tok_text(("W", meth[0], meth[1], self.oid, self.ver))
+                self.calls.append((meth, stream, bool(a) or bool(kw), tok))
+                if stream is not None:
+                    stream.write(tok)
+
+            def dump_xyz(self, stream, *a, **kw): self._rec(("VDump", "FXyz"), stream, a, kw)
+            def dump_mol2(self, stream, *a, **kw): self._rec(("VDump", "FMol2"), stream, a, kw)
+
+            def _recs(self, meth, a, kw):
+                self.calls.append((meth, None, bool(a) or bool(kw), None))
+                return Sent(kind="dumps", meth=meth, seen=tok_text(("W", meth[0], meth[1], self.oid, self.ver)))
+
+            def dumps_xyz(self, *a, **kw): return self._recs(("VDumps", "FXyz"), a, kw)
+            def dumps_mol2(self, *a, **kw): return self._recs(("VDumps", "FMol2"), a, kw)
+
+        class MockEnsObj(MockObj, real_ens):
+            def __init__(self, oid=0):
+                MockObj.__init__(self, oid)
+        self.MockObj, self.MockEnsObj = MockObj, MockEnsObj
+
+    def __enter__(self):
+        ml = self.ml
+        ml.Molecule, ml.ConformerEnsemble, ml.CDXMLFile = self.MMol, self.MEns, self.MockCDX
+        return self
+
+    def __exit__(self, *a):
+        ml = self.ml
+        ml.Molecule, ml.ConformerEnsemble, ml.CDXMLFile = self.real
+
+    def obj(self, otype, oid=0):
+        """The mock object #oid of the kind the cell asks for (persistent within the environment)."""
+        k = (otype == "OMol", oid)
+        if k not in self.objs:
+            self.objs[k] = self.MockObj(oid) if otype == "OMol" else self.MockEnsObj(oid)
+        return self.objs[k]
+
+    def call(self, c, path=None, data=None, obj=None, stream=None, mode="w", fresh=True):
+        """Run the entry point of cell c once. path: the file read / written (str); data: the string given;
+        obj: the mock object dumped; stream: the stream given (tgt TStream).  fresh: the target was empty
+        before (then its whole content must be the record written, otherwise its tail).
+        Returns (Coq `action` term, text seen by the class-level codec or None)."""
+        ml = self.ml
+        verb, fmt, fsrc, otype, named, tgt, parser, dotted = c
+        ext = FMTS[fmt]
+        self.path, self.data = path, data
+        ot = {"OMol": "molecule", "OEns": "ensemble", "OStructCls": self.MStruct, "OEnsCls": self.MEnsCls}[otype]
         kw = {"parser": PARSERS[parser]}
         if named:
             kw["name"] = GIVEN_NAME
         fmt_arg = ext if fsrc == "FsExplicit" else None
-        p_arg = path if tgt == "TPath" else __import__("pathlib").Path(path)
+        p_arg = None if path is None else (path if tgt == "TPath" else __import__("pathlib").Path(path))
         try:
             if verb in ("VLoad", "VLoadAll"):
                 fn = ml.load if verb == "VLoad" else ml.load_all
@@ -160,54 +238,83 @@ def observe_cell(ml, c, work):
                 fn = ml.loads if verb == "VLoads" else ml.loads_all
                 res = fn(data, fmt_arg, otype=ot, **kw)
             elif verb == "VDump":
-                obj = MockObj() if otype == "OMol" else MockEnsObj()
-                opath = os.path.join(work, stem.replace("in", "out") + "." + (ext if fsrc == "FsSuffix" else "dat"))
-                if os.path.exists(opath):
-                    os.remove(opath)
-                if tgt == "TStream":
-                    stream = io.StringIO()
-                    target = stream
-                else:
-                    stream = None
-                    target = opath if tgt == "TPath" else __import__("pathlib").Path(opath)
-                res = ml.dump(obj, target, fmt_arg, writer=PARSERS[parser], mode="w")
-                if res is not None or len(obj.calls) != 1:
-                    return "(AOdd 1)" if res is not None else ("ANothing" if not obj.calls else "(AOdd 2)")
-                meth, st, extra = obj.calls[0]
+                n0 = len(obj.calls)
+                target = stream if tgt == "TStream" else p_arg
+                res = ml.dump(obj, target, fmt_arg, writer=PARSERS[parser], mode=mode)
+                calls = obj.calls[n0:]
+                if res is not None or len(calls) != 1:
+                    return ("(AOdd 1)" if res is not None else ("ANothing" if not calls else "(AOdd 2)")), None
+                meth, st, extra, tok = calls[0]
                 if extra:
-                    return "(AOdd 3)"
+                    return "(AOdd 3)", None
                 if tgt == "TStream":
-                    ok = st is stream and not stream.closed and stream.getvalue() == f"<<{meth}>>"
-                    return f"(AWrote ({meth[0]}, {meth[1]}) SGivenStream {cq_bool(ok)})"
-                ok = st.closed and open(opath).read() == f"<<{meth}>>" and os.path.abspath(st.name) == os.path.abspath(opath)
-                return f"(AWrote ({meth[0]}, {meth[1]}) SOpenedPath {cq_bool(ok)})"
+                    val = stream.getvalue()
+                    ok = st is stream and not stream.closed and (val == tok if fresh else val.endswith(tok))
+                    return f"(AWrote ({meth[0]}, {meth[1]}) SGivenStream {cq_bool(ok)})", None
+                val = open(path).read()
+                ok = st.closed and (val == tok if fresh else val.endswith(tok)) and os.path.abspath(st.name) == os.path.abspath(path)
+                return f"(AWrote ({meth[0]}, {meth[1]}) SOpenedPath {cq_bool(ok)})", None
             else:
-                obj = MockObj() if otype == "OMol" else MockEnsObj()
+                n0 = len(obj.calls)
                 res = ml.dumps(obj, fmt_arg, writer=PARSERS[parser])
-                if isinstance(res, Sent) and res.kind == "dumps" and len(obj.calls) == 1 and not obj.calls[0][2]:
-                    return f"(ARet (RDumps ({res.meth[0]}, {res.meth[1]})))"
-                return "ANothing" if res is None and not obj.calls else "(AOdd 4)"
+                calls = obj.calls[n0:]
+                if isinstance(res, Sent) and res.kind == "dumps" and len(calls) == 1 and not calls[0][2]:
+                    return f"(ARet (RDumps ({res.meth[0]}, {res.meth[1]})))", res.seen
+                return ("ANothing" if res is None and not calls else "(AOdd 4)"), None
         except (ValueError, NotImplementedError):
-            return "(ARaise XUnsupported)"
+            return "(ARaise XUnsupported)", None
         except BaseException as e:  # noqa
-            return f"(ARaise XOther) (* {type(e).__name__} *)"
+            return f"(ARaise XOther) (* {type(e).__name__} *)", None
+        finally:
+            self.path = self.data = None
+
         # classify a load-like result
+        seen = []
+
         def one(r):
             if isinstance(r, Sent) and r.kind == "call":
                 if r.extra:
                     return "(ROdd 5)"
+                seen.append(r.seen)
                 return f"(RCall {r.cls} ({r.meth[0]}, {r.meth[1]}) {r.src} {r.name})"
             if hasattr(r, "ctor_arg") and isinstance(r.ctor_arg, Sent) and r.ctor_arg.kind == "frag" and not r.ctor_extra \
                     and r.ctor_arg.path_ok:
+                seen.append(r.ctor_arg.seen)
                 return f"(RCtor {type(r)._kname} {r.ctor_arg.idx}%nat {r.ctor_arg.name})"
             return "(ROdd 6)"
         if res is None:
-            return "ANothing"
+            return "ANothing", None
         if isinstance(res, list):
-            return "(ARet (RList " + cq_list(one(r) for r in res) + "))"
-        return f"(ARet {one(res)})"
-    finally:
-        ml.Molecule, ml.ConformerEnsemble, ml.CDXMLFile = real_mol, real_ens, real_cdx
+            act = "(ARet (RList " + cq_list(one(r) for r in res) + "))"
+        else:
+            act = f"(ARet {one(res)})"
+        if not seen or any(x != seen[0] for x in seen):
+            return act, None
+        return act, seen[0]
+
+
+def observe_cell(ml, c, work):
+    """Run one cell ONCE against fresh recording mocks and fresh files; return the Coq `action` term."""
+    verb, fmt, fsrc, otype, named, tgt, parser, dotted = c
+    ext = FMTS[fmt]
+    stem = "in.put.v2" if dotted else "input"
+    path = os.path.join(work, stem + "." + (ext if fsrc == "FsSuffix" else "dat"))
+    open(path, "w").write("mock file body\n")
+    data = "mock string body " + ext
+    with MockEnv(ml) as env:
+        if verb in ("VLoad", "VLoadAll"):
+            return env.call(c, path=path)[0]
+        if verb in ("VLoads", "VLoadsAll"):
+            return env.call(c, data=data)[0]
+        obj = env.obj(otype)
+        if verb == "VDump":
+            opath = os.path.join(work, stem.replace("in", "out") + "." + (ext if fsrc == "FsSuffix" else "dat"))
+            if os.path.exists(opath):
+                os.remove(opath)
+            if tgt == "TStream":
+                return env.call(c, obj=obj, stream=io.StringIO())[0]
+            return env.call(c, path=opath, obj=obj)[0]
+        return env.call(c, obj=obj)[0]
 
 
 def gen_table(ctx):
@@ -253,6 +360,320 @@ def py_spec(c):
     if verb == "VDump":
         return f"(AWrote (VDump, {fmt}) {'SGivenStream' if tgt == 'TStream' else 'SOpenedPath'} true)"
     return f"(ARet (RDumps (VDumps, {fmt})))"
+
+
+# ------------------------------------------------------------------ replayable histories
+class Confirm:
+    """State kept by the implementation may come from an EARLIER history of the same run.  A diverging history is
+    therefore re-run alone in a fresh process; when it does not diverge there, the recorded input becomes
+    'the earlier histories of this run, then this one' (replayed in that order in one process)."""
+
+    def __init__(self, ctx, kind, cap=10):
+        self.ctx, self.kind, self.cap, self.seen, self.n = ctx, kind, cap, set(), 0
+
+    def replay_dict(self, sig, prog_json, before_json):
+        if sig in self.seen:
+            return None                      # one recorded input per signature
+        self.seen.add(sig)
+        data = {"kind": self.kind, "prog": prog_json}
+        if self.n < self.cap:
+            self.n += 1
+            f = os.path.join(self.ctx.sub("confirm"), f"{self.kind}{self.n}.json")
+            json.dump({"replay": data}, open(f, "w"))
+            rc, out = vlib.sh([sys.executable, os.path.join(vlib.VERIF, "tools", "check.py"), "C09", "--replay", f], 300)
+            if rc == 1 and "REPRODUCED" in out:
+                return data
+        return {**data, "before": before_json}
+
+
+# ------------------------------------------------------------------ histories under mocks (Model/DispatchSeq.v)
+# op = ("call", cell, slot, o, v, "a"|"w") | ("rewrite", fkey, d);  fkey = (slot, ext-kind, dotted), ext-kind = fmt tag | "EDat"
+def fkey_of(c, slot):
+    return (slot, c[1] if c[2] == "FsSuffix" else "EDat", c[7])
+
+
+def fkey_name(k):
+    slot, ek, dotted = k
+    return f"s{slot}" + (".v2.x" if dotted else "") + "." + ("dat" if ek == "EDat" else FMTS[ek])
+
+
+def tok_term(t):
+    if t[0] == "D":
+        return f"(TDoc {t[1]}%nat)"
+    if t[0] == "W":
+        return f"(TW ({t[1]}, {t[2]}) {t[3]}%nat {t[4]}%nat)"
+    return "TBad"
+
+
+def text_term(toks):
+    return cq_list(tok_term(t) for t in toks)
+
+
+def fkey_term(k):
+    return f"({k[0]}%nat, {'EDat' if k[1] == 'EDat' else '(EFmt ' + k[1] + ')'}, {cq_bool(k[2])})"
+
+
+def op_term(op):
+    if op[0] == "rewrite":
+        return f"(ORewrite {fkey_term(op[1])} {op[2]}%nat)"
+    _, c, slot, o, v, md = op
+    return f"(OCall {cell_term(c)} {slot}%nat {o}%nat {v}%nat {'MAppend' if md == 'a' else 'MTrunc'})"
+
+
+def op_json(op):
+    return ["rewrite", list(op[1]), op[2]] if op[0] == "rewrite" else ["call", list(op[1]), *op[2:]]
+
+
+def op_unjson(j):
+    return ("rewrite", tuple(j[1]), j[2]) if j[0] == "rewrite" else ("call", tuple(j[1]), *j[2:])
+
+
+def prog_files(prog):
+    """Every file a history addresses, in order of first use; initial content = a document of its own."""
+    ks = []
+    for op in prog:
+        k = None
+        if op[0] == "rewrite":
+            k = op[1]
+        elif op[1][0] in ("VLoad", "VLoadAll") or (op[1][0] == "VDump" and op[1][5] != "TStream"):
+            k = fkey_of(op[1], op[2])
+        if k is not None and k not in ks:
+            ks.append(k)
+    return [(k, [("D", 10 + i)]) for i, k in enumerate(ks)]
+
+
+N_STREAMS = 2
+
+
+def py_step(files, streams, op):
+    """Python mirror of Model/DispatchSeq.v `step` (used to NAME the diverging step; Coq decides)."""
+    if op[0] == "rewrite":
+        files[op[1]] = [("D", op[2])]
+        return "ANothing", None
+    _, c, slot, o, v, md = op
+    a = py_spec(c)
+    verb, k = c[0], fkey_of(c, slot)
+    if verb in ("VLoad", "VLoadAll") and a.startswith("(ARet"):
+        return a, list(files[k])
+    if verb in ("VLoads", "VLoadsAll") and a.startswith("(ARet"):
+        return a, [("D", slot)]
+    if verb == "VDump" and a.startswith("(AWrote"):
+        tok = ("W", "VDump", c[1], o, v)
+        if c[5] == "TStream":
+            streams[slot] = streams[slot] + [tok]
+        else:
+            files[k] = (files[k] if md == "a" else []) + [tok]
+        return a, None
+    if verb == "VDumps" and a.startswith("(ARet"):
+        return a, [("W", "VDumps", c[1], o, v)]
+    return a, None
+
+
+def observe_prog(ml, prog, work):
+    """Run one history against ONE mock environment in a fresh directory.
+    Returns (init files, [ (action, seen toks|None, [file toks], [stream toks]) per step ])."""
+    os.makedirs(work, exist_ok=True)
+    init = prog_files(prog)
+    pth = {k: os.path.join(work, fkey_name(k)) for k, _ in init}
+    for k, t in init:
+        open(pth[k], "w").write("".join(tok_text(x) for x in t))
+    streams = [io.StringIO() for _ in range(N_STREAMS)]
+    datas = {}
+    mfiles, mstreams = {k: list(t) for k, t in init}, [[] for _ in range(N_STREAMS)]     # mirror, for the repair below
+    out = []
+    with MockEnv(ml) as env:
+        for op in prog:
+            if op[0] == "rewrite":
+                st0 = os.stat(pth[op[1]])
+                open(pth[op[1]], "w").write(tok_text(("D", op[2])))
+                if op[2] % 2:       # odd documents arrive with the time stamp (and length) of what they replace
+                    os.utime(pth[op[1]], ns=(st0.st_atime_ns, st0.st_mtime_ns))
+                act, seen = "ANothing", None
+            else:
+                _, c, slot, o, v, md = op
+                verb = c[0]
+                if verb in ("VLoad", "VLoadAll"):
+                    act, seen = env.call(c, path=pth[fkey_of(c, slot)])
+                elif verb in ("VLoads", "VLoadsAll"):
+                    # one string object per document: calling again with the same document hands over the same string
+                    data = datas.setdefault(slot, tok_text(("D", slot)))
+                    act, seen = env.call(c, data=data)
+                else:
+                    obj = env.obj(c[3], o)
+                    obj.ver = v                     # the object was modified since the previous call
+                    if verb == "VDump" and c[5] == "TStream":
+                        act, seen = env.call(c, obj=obj, stream=streams[slot], fresh=False)
+                    elif verb == "VDump":
+                        act, seen = env.call(c, path=pth[fkey_of(c, slot)], obj=obj, mode=md, fresh=False)
+                    else:
+                        act, seen = env.call(c, obj=obj)
+            py_step(mfiles, mstreams, op)
+            if op[0] == "call" and op[1][0] == "VDump" and op[1][5] != "TStream" and act.startswith("(ARaise"):
+                # a refused dump: whether the (already opened) target was created / truncated is not part of the
+                # property -- put the file back so that it is not observed
+                k = fkey_of(op[1], op[2])
+                open(pth[k], "w").write("".join(tok_text(x) for x in mfiles[k]))
+            fobs = []
+            for k, _ in init:
+                try:
+                    fobs.append(parse_toks(open(pth[k]).read()))
+                except OSError:
+                    fobs.append([("B",)])
+            out.append((act, None if seen is None else parse_toks(seen), fobs, [parse_toks(st.getvalue()) for st in streams]))
+    return init, out
+
+
+def model_prog(prog):
+    init = prog_files(prog)
+    files, streams = {k: list(t) for k, t in init}, [[] for _ in range(N_STREAMS)]
+    out = []
+    for op in prog:
+        a, seen = py_step(files, streams, op)
+        out.append((a, seen, [list(files[k]) for k, _ in init], [list(x) for x in streams]))
+    return init, out
+
+
+def seqcase_term(init, prog, obs):
+    w = ("(mk_world " + cq_list(f"({fkey_term(k)}, {text_term(t)})" for k, t in init) + " "
+         + cq_list(f"({i}%nat, [])" for i in range(N_STREAMS)) + ")")
+    ob = cq_list(f"(mk_obs ({a}, {'None' if sn is None else '(Some ' + text_term(sn) + ')'}) "
+                 f"{cq_list(text_term(t) for t in fo)} {cq_list(text_term(t) for t in so)})" for a, sn, fo, so in obs)
+    return f"(mk_seqcase {w} {cq_list(op_term(o) for o in prog)} {ob})"
+
+
+def judge_prog(prog, obs):
+    """First step where the recorded history leaves the model: (signature, text) or None."""
+    _, want = model_prog(prog)
+    last_touch = {}
+    for i, (op, g, w) in enumerate(zip(prog, obs, want)):
+        if op[0] == "call":
+            c = op[1]
+            src = ("data", op[2]) if c[0] in ("VLoads", "VLoadsAll") else ("obj", c[3], op[3]) if c[0] == "VDumps" else \
+                  ("stream", op[2]) if c[5] == "TStream" else ("file", fkey_of(c, op[2]))
+            rel = last_touch.get(src, "first")
+        ga = g[0].split(" (*")[0]
+        what = None
+        if ga != w[0]:
+            what = f"action:{g[0].split()[0].strip('()')}"
+            detail = f"did {g[0]}, specified {w[0]}"
+        elif g[1] != w[1]:
+            what = "stale-or-wrong-source"
+            detail = (f"the class-level codec was handed / rendered {None if g[1] is None else ''.join(map(tok_text, g[1]))!r} "
+                      f"but the source holds {None if w[1] is None else ''.join(map(tok_text, w[1]))!r} now")
+        elif g[2] != w[2] or g[3] != w[3]:
+            what = "world"
+            detail = (f"files/streams afterwards {[''.join(map(tok_text, t)) for t in g[2] + g[3]]}, "
+                      f"specified {[''.join(map(tok_text, t)) for t in w[2] + w[3]]}")
+        if what:
+            if op[0] == "call":
+                head = f"C09:seq:{c[0]}:{c[1]}:{rel}:{what}"
+            else:
+                head = f"C09:seq:rewrite:{what}"
+            hist = " ; ".join(op_term(o) for o in prog[:i + 1])
+            return head, f"step {i} of the history [{hist}]: {detail}"
+        if op[0] == "call":
+            last_touch[src] = "after-" + c[0]
+            if c[0] == "VDump" and c[5] != "TStream":
+                last_touch[("file", fkey_of(c, op[2]))] = "after-VDump"
+        else:
+            last_touch[("file", op[1])] = "after-rewrite"
+    return None
+
+
+def gen_progs(ctx, rep):
+    """Histories: a directed 'call, change the source, call again' family over EVERY valid cell, and random ones."""
+    rng = ctx.rng
+    cells = list(all_cells())
+    by_key = {}
+    for c in cells:
+        if c[0] in ("VLoad", "VLoadAll"):
+            by_key.setdefault((c[1], c[2], c[7]), []).append(c)
+    progs = []
+    for c in cells:
+        verb = c[0]
+        if c[6] != "PMolli" and not ctx.thorough and rng.random() < 0.75:
+            continue      # quick tier: every cell with the plain parser spelling, a quarter of the other spellings
+        if verb in ("VLoad", "VLoadAll"):
+            k = fkey_of(c, 0)
+            sib = rng.choice(by_key[(c[1], c[2], c[7])])     # another reader configuration addressing the same file
+            p = [("call", c, 0, 0, 0, "a"), ("rewrite", k, 31), ("call", c, 0, 0, 0, "a"), ("call", sib, 0, 0, 0, "a"),
+                 ("rewrite", k, 32), ("call", sib, 0, 0, 0, "a"), ("call", c, 0, 0, 0, "a")]
+        elif verb in ("VLoads", "VLoadsAll"):
+            p = [("call", c, 41, 0, 0, "a"), ("call", c, 42, 0, 0, "a"), ("call", c, 41, 0, 0, "a")]
+        elif verb == "VDump" and c[5] == "TStream":
+            p = [("call", c, 0, 0, 0, "a"), ("call", c, 0, 0, 1, "a"), ("call", c, 1, 1, 0, "a"), ("call", c, 0, 0, 2, "a"),
+                 ("call", c, 1, 0, 2, "a")]
+        elif verb == "VDump":
+            rd = [x for x in by_key.get((c[1], c[2], c[7]), []) if x[6] == "PMolli"]
+            cl = rng.choice(rd)
+            m1, m2 = rng.choice("aw"), rng.choice("aw")
+            p = [("call", c, 0, 0, 0, m1), ("call", cl, 0, 0, 0, "a"), ("call", c, 0, 0, 1, m2), ("call", cl, 0, 0, 0, "a"),
+                 ("call", c, 0, 1, 0, "a"), ("rewrite", fkey_of(c, 0), 33), ("call", c, 0, 0, 1, "w"), ("call", cl, 0, 0, 0, "a")]
+        else:
+            p = [("call", c, 0, 0, 0, "a"), ("call", c, 0, 0, 1, "a"), ("call", c, 0, 1, 0, "a"), ("call", c, 0, 0, 1, "a")]
+        progs.append(("recall", p))
+    # random histories over two file slots, two streams, two objects, a few documents
+    good = [c for c in cells if c[6] != "PUnknown" and c[1] in ("FXyz", "FMol2", "FCdxml")]
+    n_rand = 2500 if ctx.thorough else 400
+    for _ in range(n_rand):
+        p, ver = [], {}
+        for _ in range(rng.randint(3, 9)):
+            r = rng.random()
+            c = rng.choice(good if r < 0.85 else cells)
+            slot = rng.randint(0, 1)
+            if p and rng.random() < 0.25:
+                ks = [k for k, _ in prog_files(p)]
+                if ks:
+                    p.append(("rewrite", rng.choice(ks), rng.randint(50, 59)))
+                    continue
+            if c[0] in ("VLoads", "VLoadsAll"):
+                slot = rng.randint(60, 62)
+            o = rng.randint(0, 1)
+            if rng.random() < 0.5:
+                ver[o] = ver.get(o, 0) + 1
+            p.append(("call", c, slot, o, ver.get(o, 0), rng.choice("aw")))
+        progs.append(("random", p))
+    return progs
+
+
+def run_seq_mocks(ctx, rep, coq=True):
+    """Histories under mocks: correspondence with Model/DispatchSeq.v `run` (Coq shards) + concrete naming."""
+    import molli as ml
+    work = ctx.sub("c09seq")
+    t0 = __import__("time").time()
+    progs = gen_progs(ctx, rep)
+    terms, found = [], False
+    conf = Confirm(ctx, "seq")
+    for n, (fam, prog) in enumerate(progs):
+        init, obs = observe_prog(ml, prog, os.path.join(work, f"p{n}"))
+        shutil.rmtree(os.path.join(work, f"p{n}"), ignore_errors=True)
+        term = seqcase_term(init, prog, obs)
+        terms.append(term)
+        rep.case(key="seq:" + hashlib.sha1(term.encode()).hexdigest()[:16])
+        rep.count("seq:family:" + fam)
+        prev = "start"
+        for op in prog:
+            cur = "rewrite" if op[0] == "rewrite" else op[1][0]
+            rep.count(f"seq:pair:{prev}>{cur}")
+            prev = cur
+        r = judge_prog(prog, obs)
+        if r:
+            found = True
+            rd = conf.replay_dict(r[0], [op_json(o) for o in prog], [[op_json(o) for o in q] for _, q in progs[:n]])
+            if rd:
+                rep.violate(r[0], r[1] + (" (after the earlier histories of this run)" if "before" in rd else ""), rd)
+    rep.samples.append("history: " + " ; ".join(op_term(o) for o in progs[len(progs) // 3][1]))
+    rep.extra["seq_mock_python_s"] = round(__import__("time").time() - t0, 1)
+    rep.extra["seq_mock_coq_source_kb"] = sum(map(len, terms)) // 1024
+    if not coq:
+        return found          # Props/C09.vo did not build: the caller reports that; histories were judged above
+    bad = vlib.run_shards(ctx, rep, "c09seq", "From Coq Require Import List. Import ListNotations.\n"
+                          "From Molli Require Import Model.Dispatch Model.DispatchSeq.", "check_seq", terms,
+                          shard=250, case_type="seqcase")
+    if bad is None or bad:
+        # the kernel rejected a recorded history: the Python mirror names it above; if it named nothing, say so
+        vlib.broken_obligation(rep, "corr_c09seq", f"histories rejected by check_seq: {bad if bad is None else bad[:20]}", found)
+    return found
 
 
 def mol_sig(m):
@@ -390,16 +811,403 @@ def judge_real(desc, ep, cm, kind):
     return None
 
 
+# ------------------------------------------------------------------ histories on real files and objects (oracle)
+# Every step of a history is compared with the class-level codec applied to the source AS IT IS NOW.
+SLOTS = [("s0.xyz", "xyz"), ("s1.mol2", "mol2"), ("s2.cdxml", "cdxml"), ("s3.dat", None), ("s4.v2.final.xyz", "xyz"),
+         ("s5.mol2", "mol2")]
+
+
+def _variant(text, fmt):
+    """Same length, one coordinate digit changed: a file that differs from the original in content only."""
+    if fmt == "xyz":
+        ms = list(re.finditer(r"\d+\.\d+", text))
+        m = ms[-1] if ms else None
+    elif fmt == "mol2":
+        at = text.find("@<TRIPOS>ATOM")
+        m = re.compile(r"\d+\.\d+").search(text, at if at >= 0 else 0)
+    else:
+        m = re.compile(r'<n\b[^>]*?\bp="(\d+)').search(text)
+        if m:
+            i = m.end(1) - 1
+            return text[:i] + str((int(text[i]) + 1) % 10) + text[i + 1:]
+    if not m:
+        return text
+    i = m.end() - 1
+    return text[:i] + str((int(text[i]) + 1) % 10) + text[i + 1:]
+
+
+class RealWorld:
+    """Content pool (bundled files + same-length variants + files written by the class-level writers),
+    object pool, and the judge of one step."""
+
+    def __init__(self, ml):
+        F = ml.files
+        self.ml = ml
+        rd = lambda p: open(p).read()
+        self.pool = {
+            "xyz": [rd(F.dendrobine_xyz), rd(F.pentane_confs_xyz), rd(F.dummy_xyz)],
+            "mol2": [rd(F.dendrobine_mol2), rd(F.pentane_confs_mol2), rd(F.benzene_mol2), rd(F.dmf_mol2), rd(F.fxyl_mol2)],
+            "cdxml": [rd(F.substituents_cdxml), rd(F.charges_mult_cdxml), rd(F.BOX_bridge), rd(F.BOX_cores)],
+        }
+        for fmt in list(self.pool):
+            self.pool[fmt] += [_variant(t, fmt) for t in self.pool[fmt][:2]]
+        # generated files: other molecules rendered by the class-level xyz writer
+        for p in (F.benzene_mol2, F.dmf_mol2):
+            self.pool["xyz"].append(ml.Molecule.load_mol2(str(p)).dumps_xyz())
+        self.otypes = {"molecule": ml.Molecule, "ensemble": ml.ConformerEnsemble, "Structure": ml.Structure}
+
+    def fresh_objects(self):
+        ml, F = self.ml, self.ml.files
+        return [ml.Molecule.load_mol2(str(F.dendrobine_mol2)), ml.ConformerEnsemble.load_mol2(str(F.pentane_confs_mol2)),
+                ml.Molecule.load_mol2(str(F.benzene_mol2))]
+
+
+def real_class_load(rw, verb, path, fmt, cls, name, key):
+    """The class-level codec on the file as it is now."""
+    ml = rw.ml
+    if fmt == "cdxml":
+        f = ml.CDXMLFile(path)
+        if verb == "load":
+            return cls(f._parse_fragment(f.xfrags[0], name=name)) if key is None else cls(f[key])
+        return [cls(f._parse_fragment(x, name=name)) for x in f.xfrags]
+    with open(path) as fh:
+        return getattr(cls, ("load_" if verb == "load" else "load_all_") + fmt)(fh, name=name)
+
+
+def run_real_prog(rw, prog, work):
+    """Run one history on real files. Returns [(step index, signature, text)] of the steps that disagree
+    with the class-level codec applied to the current source."""
+    ml = rw.ml
+    from pathlib import Path
+    os.makedirs(work, exist_ok=True)
+    paths = [os.path.join(work, n) for n, _ in SLOTS]
+    cur = {}                      # slot -> (fmt, text) put there by the environment (None after a dump)
+    objs = rw.fresh_objects()
+    streams = [io.StringIO(), io.StringIO()]
+    last = {}
+    out = []
+
+    def bad(i, op, fmt, rel, what, text):
+        out.append((i, f"C09:seq-real:{op[0] if op[0] != 'load' else op[1]}:{fmt}:{rel}:{what}",
+                    f"step {i} {op!r} of the history {prog[:i + 1]!r}: {text}"))
+
+    def compare(i, op, fmt, rel, want, got, listy, name):
+        if isinstance(want, Exception) or isinstance(got, Exception):
+            if isinstance(want, Exception) and isinstance(got, Exception) and type(got) is type(want):
+                return
+            return bad(i, op, fmt, rel, "raises" if isinstance(got, Exception) else "class-codec-raises",
+                       f"class-level codec gave {want!r}, entry point gave {got!r}")
+        if listy:
+            if not isinstance(got, list):
+                return bad(i, op, fmt, rel, "not-a-list", f"a list is promised, got {type(got).__name__}")
+            if [type(x) for x in got] != [type(x) for x in want] or [mol_sig(x) for x in got] != [mol_sig(x) for x in want]:
+                return bad(i, op, fmt, rel, "objects-differ",
+                           f"{len(got)} object(s) {[getattr(x, 'formula', '?') for x in got][:3]} but the class-level reader gives "
+                           f"{len(want)} {[getattr(x, 'formula', '?') for x in want][:3]} on the source as it is now")
+            if name is not None and any(x.name != name for x in got):
+                return bad(i, op, fmt, rel, "name-ignored", f"name override not honoured: {[x.name for x in got][:3]}")
+        else:
+            if type(got) is not type(want) or mol_sig(got) != mol_sig(want):
+                return bad(i, op, fmt, rel, "objects-differ",
+                           f"got {got!r} but the class-level reader gives {want!r} on the source as it is now")
+            if name is not None and got.name != name:
+                return bad(i, op, fmt, rel, "name-ignored", f"name override not honoured: {got.name!r}")
+
+    def spoil(res):
+        # the caller modifies what it was given: a later call must not hand the same objects out again
+        for x in (res if isinstance(res, list) else [res]):
+            try:
+                x.name = "spoiled"
+                x.coords = x.coords + 1.5
+            except Exception:  # noqa
+                pass
+
+    for i, op in enumerate(prog):
+        kind = op[0]
+        if kind == "put":
+            _, slot, fmt, idx, how = op
+            text = rw.pool[fmt][idx % len(rw.pool[fmt])]
+            p = paths[slot]
+            st = os.stat(p) if os.path.exists(p) else None
+            if how == "replace" and st is not None:
+                tmp = p + ".new"
+                open(tmp, "w").write(text)
+                os.replace(tmp, p)
+            else:
+                open(p, "w").write(text)
+            if how == "keep-mtime" and st is not None:
+                os.utime(p, ns=(st.st_atime_ns, st.st_mtime_ns))
+            cur[slot] = fmt
+            last[("file", slot)] = "after-rewrite"
+        elif kind == "load":
+            _, verb, slot, explicit, otn, name, aspath, key, spoil_it = op
+            fmt = cur.get(slot) or SLOTS[slot][1]
+            if SLOTS[slot][1] is None:
+                explicit = True
+            cls = rw.otypes[otn]
+            p = paths[slot]
+            if key == "first":
+                try:
+                    key = list(ml.CDXMLFile(p).keys())[0] if fmt == "cdxml" else None
+                except Exception:  # noqa
+                    key = None
+            try:
+                want = real_class_load(rw, verb, p, fmt, cls, name, key)
+            except Exception as e:  # noqa
+                want = e
+            try:
+                fn = ml.load if verb == "load" else ml.load_all
+                kw = {} if key is None else {"key": key}
+                got = fn(Path(p) if aspath else p, fmt if explicit else None, otype=(cls if otn == "Structure" else otn), name=name, **kw)
+            except Exception as e:  # noqa
+                got = e
+            compare(i, op, fmt, last.get(("file", slot), "first"), want, got, verb == "load_all", name if key is None else None)
+            if spoil_it and not isinstance(got, Exception):
+                spoil(got)
+            last[("file", slot)] = "after-" + verb
+        elif kind == "loads":
+            _, verb, fmt, idx, otn, name, spoil_it = op
+            text = rw.pool[fmt][idx % len(rw.pool[fmt])]
+            cls = rw.otypes[otn]
+            try:
+                want = getattr(cls, verb + "_" + fmt)(text, name=name)
+            except Exception as e:  # noqa
+                want = e
+            try:
+                got = getattr(ml, verb)(text, fmt, otype=(cls if otn == "Structure" else otn), name=name)
+            except Exception as e:  # noqa
+                got = e
+            src = ("str", fmt, idx % len(rw.pool[fmt]))
+            compare(i, op, fmt, last.get(src, "first"), want, got, verb == "loads_all", name)
+            if spoil_it and not isinstance(got, Exception):
+                spoil(got)
+            last[src] = "after-" + verb
+        elif kind == "mutate":
+            o = objs[op[1] % len(objs)]
+            o.coords = o.coords + 0.25
+            o.name = (o.name + "x")[-12:]
+            last[("obj", op[1] % len(objs))] = "after-mutate"
+        elif kind == "dumps":
+            _, oi, fmt = op
+            o = objs[oi % len(objs)]
+            try:
+                want = getattr(o, "dumps_" + fmt)()
+            except Exception as e:  # noqa
+                want = e
+            try:
+                got = ml.dumps(o, fmt)
+            except Exception as e:  # noqa
+                got = e
+            rel = last.get(("obj", oi % len(objs)), "first")
+            if isinstance(want, Exception) or isinstance(got, Exception):
+                compare(i, op, fmt, rel, want, got, False, None)
+            elif got != want:
+                bad(i, op, fmt, rel, "text-differs", "text differs from what the class-level writer renders for the object as it is now")
+            last[("obj", oi % len(objs))] = "after-dumps"
+        elif kind == "dump":
+            _, oi, tkind, ti, fmt, explicit, mode, aspath = op
+            o = objs[oi % len(objs)]
+            if tkind == "stream":
+                st = streams[ti % 2]
+                before = st.getvalue()
+                rel = last.get(("stream", ti % 2), "first")
+                try:
+                    r = ml.dump(o, st, fmt)
+                    after = st.getvalue()
+                    if r is not None or st.closed:
+                        bad(i, op, fmt, rel, "stream-closed-or-result", f"returned {r!r}, stream closed={st.closed}")
+                    elif after != before + getattr(o, "dumps_" + fmt)():
+                        bad(i, op, fmt, rel, "text-differs", "the stream does not hold (what it held) + (the class-level rendering of the object as it is now)")
+                except Exception as e:  # noqa
+                    bad(i, op, fmt, rel, "raises", f"{type(e).__name__}: {e}")
+                last[("stream", ti % 2)] = "after-dump"
+            else:
+                slot = ti
+                p = paths[slot]
+                sfmt = SLOTS[slot][1]
+                if sfmt is None:
+                    explicit = True
+                if not explicit:
+                    fmt = sfmt
+                rel = last.get(("file", slot), "first")
+                before = open(p).read() if os.path.exists(p) else ""
+                kw = {} if mode is None else {"mode": mode}
+                try:
+                    r = ml.dump(o, Path(p) if aspath else p, fmt if explicit else None, **kw)
+                    err = None
+                except Exception as e:  # noqa
+                    err = e
+                if fmt not in ("xyz", "mol2"):
+                    if not isinstance(err, (ValueError, NotImplementedError)):
+                        bad(i, op, fmt, rel, "unsupported-not-refused", f"expected ValueError, got {err!r}")
+                    # whether the refused target was created / truncated is not part of the property: put it back
+                    if before or os.path.exists(p):
+                        open(p, "w").write(before)
+                    continue
+                if err is not None:
+                    bad(i, op, fmt, rel, "raises", f"{type(err).__name__}: {err}")
+                else:
+                    want = (before if mode in (None, "a") else "") + getattr(o, "dumps_" + fmt)()
+                    after = open(p).read()
+                    if after != want:
+                        bad(i, op, fmt, rel, "text-differs",
+                            f"file holds {len(after)} chars, expected (previous content if appending, {len(before)} chars) + class-level "
+                            f"rendering of the object as it is now = {len(want)} chars")
+                cur[slot] = fmt if slot == 3 else None
+                last[("file", slot)] = "after-dump"
+    return out
+
+
+def gen_real_progs(ctx, rw):
+    """Directed 'call, change, call again' histories for every format x entry point x path spelling x way of
+    rewriting, plus random histories."""
+    rng = ctx.rng
+    progs = []
+    slot_of = {"xyz": [0, 4, 3], "mol2": [1, 5, 3], "cdxml": [2, 3]}
+    for fmt in ("xyz", "mol2", "cdxml"):
+        for verb in ("load", "load_all"):
+            for aspath in (False, True):
+                for how in ("inplace", "replace", "keep-mtime"):
+                    for otn in ("molecule", "Structure") + (("ensemble",) if verb == "load" and fmt != "cdxml" else ()):
+                        slot = rng.choice(slot_of[fmt])
+                        a, b = rng.sample(range(len(rw.pool[fmt])), 2)
+                        if how == "keep-mtime":       # same length, same mtime, other content
+                            a = rng.randint(0, 1)
+                            b = len(rw.pool[fmt]) - (4 if fmt == "xyz" else 2) + a
+                            if rng.random() < 0.5:
+                                a, b = b, a
+                        if otn == "ensemble":
+                            a, b = 1, len(rw.pool[fmt]) - (4 if fmt == "xyz" else 2) + 1
+                        name = rng.choice([None, "renamed"])
+                        expl = rng.random() < 0.5
+                        other = "load_all" if verb == "load" else "load"
+                        o2 = otn if otn != "ensemble" else "molecule"
+                        p = [("put", slot, fmt, a, "inplace"),
+                             ("load", verb, slot, expl, otn, None, aspath, None, rng.random() < 0.5),
+                             ("put", slot, fmt, b, how),
+                             ("load", verb, slot, expl, otn, name, aspath, None, True),
+                             ("load", verb, slot, not expl, otn, None, not aspath, None, False),
+                             ("load", other, slot, expl, o2, name, aspath, None, False),
+                             ("put", slot, fmt, a, how),
+                             ("load", other, slot, expl, o2, None, not aspath, None, False),
+                             ("load", verb, slot, expl, otn, name, aspath, None, False)]
+                        if fmt == "cdxml" and verb == "load":
+                            p += [("load", "load", slot, expl, otn, None, aspath, "first", False),
+                                  ("put", slot, fmt, b, how),
+                                  ("load", "load", slot, expl, otn, None, aspath, "first", False)]
+                        progs.append(("recall-load", p))
+    for fmt in ("xyz", "mol2"):
+        for verb in ("loads", "loads_all"):
+            for otn in ("molecule", "Structure") + (("ensemble",) if verb == "loads" else ()):
+                a, b = (1, len(rw.pool[fmt]) - (4 if fmt == "xyz" else 2) + 1) if otn == "ensemble" else rng.sample(range(len(rw.pool[fmt])), 2)
+                name = rng.choice([None, "renamed"])
+                progs.append(("recall-loads", [("loads", verb, fmt, a, otn, None, True), ("loads", verb, fmt, a, otn, name, True),
+                                               ("loads", verb, fmt, b, otn, None, False), ("loads", verb, fmt, a, otn, None, False)]))
+        for oi in (0, 1, 2):
+            for aspath in (False, True):
+                slot = rng.choice(slot_of[fmt])
+                m1 = rng.choice([None, "a", "w"])
+                progs.append(("recall-dump", [
+                    ("dump", oi, "path", slot, fmt, rng.random() < 0.5, "w", aspath), ("mutate", oi),
+                    ("dump", oi, "path", slot, fmt, rng.random() < 0.5, m1, aspath),
+                    ("load", "load_all", slot, True, "molecule", None, aspath, None, True),
+                    ("load", "load", slot, False, "molecule", "renamed", not aspath, None, False),
+                    ("dump", oi + 1, "path", slot, fmt, True, None, not aspath),
+                    ("load", "load_all", slot, True, "molecule", None, aspath, None, False),
+                    ("put", slot, fmt, rng.randint(0, 4), rng.choice(["inplace", "replace"])),
+                    ("dump", oi, "path", slot, fmt, False, "a", aspath),
+                    ("load", "load_all", slot, True, "Structure", None, aspath, None, False),
+                    ("dumps", oi, fmt), ("mutate", oi), ("dumps", oi, fmt), ("dumps", oi + 1, fmt), ("dumps", oi, fmt),
+                    ("dump", oi, "stream", 0, fmt, True, None, False), ("mutate", oi),
+                    ("dump", oi, "stream", 0, fmt, True, None, False), ("dump", oi + 1, "stream", 1, fmt, True, None, False),
+                    ("dump", oi, "stream", 0, "xyz" if fmt == "mol2" else "mol2", True, None, False),
+                    ("dump", oi, "path", 2, "cdxml", False, "w", aspath),
+                    ("load", "load_all", slot, True, "molecule", None, aspath, None, False)]))
+    n_rand = 1200 if ctx.thorough else 120
+    for _ in range(n_rand):
+        p, have = [], set()
+        for _ in range(rng.randint(5, 12)):
+            r = rng.random()
+            if r < 0.25 or not have:
+                fmt = rng.choice(["xyz", "mol2", "cdxml"])
+                slot = rng.choice(slot_of[fmt])
+                p.append(("put", slot, fmt, rng.randint(0, 9), rng.choice(["inplace", "replace", "keep-mtime"])))
+                have.add(slot)
+            elif r < 0.60:
+                slot = rng.choice(sorted(have))
+                verb = rng.choice(["load", "load_all"])
+                otn = rng.choice(["molecule", "molecule", "Structure"] + (["ensemble"] if verb == "load" else []))
+                p.append(("load", verb, slot, rng.random() < 0.5, otn, rng.choice([None, "renamed"]), rng.random() < 0.5,
+                          rng.choice([None, None, None, "first"]) if verb == "load" else None, rng.random() < 0.5))
+            elif r < 0.70:
+                fmt = rng.choice(["xyz", "mol2"])
+                verb = rng.choice(["loads", "loads_all"])
+                p.append(("loads", verb, fmt, rng.randint(0, 3), rng.choice(["molecule", "Structure"]), rng.choice([None, "renamed"]),
+                          rng.random() < 0.5))
+            elif r < 0.80:
+                p.append(("mutate", rng.randint(0, 2)))
+            elif r < 0.88:
+                p.append(("dumps", rng.randint(0, 2), rng.choice(["xyz", "mol2"])))
+            elif r < 0.93:
+                p.append(("dump", rng.randint(0, 2), "stream", rng.randint(0, 1), rng.choice(["xyz", "mol2"]), True, None, False))
+            else:
+                slot = rng.choice([0, 1, 3, 4, 5])
+                fmt = SLOTS[slot][1] or rng.choice(["xyz", "mol2"])
+                p.append(("dump", rng.randint(0, 2), "path", slot, fmt, rng.random() < 0.5, rng.choice([None, "a", "w"]), rng.random() < 0.5))
+                have.add(slot)
+        progs.append(("random", p))
+    return progs
+
+
+def run_real_seqs(ctx, rep):
+    import molli as ml
+    rw = RealWorld(ml)
+    work = ctx.sub("c09realseq")
+    found = False
+    conf = Confirm(ctx, "realseq")
+    progs = gen_real_progs(ctx, rw)
+    for n, (fam, prog) in enumerate(progs):
+        d = os.path.join(work, f"h{n}")
+        res = run_real_prog(rw, prog, d)
+        shutil.rmtree(d, ignore_errors=True)
+        rep.case(key="realseq:" + hashlib.sha1(json.dumps(prog).encode()).hexdigest()[:16])
+        rep.count("realseq:family:" + fam)
+        prev = "start"
+        for op in prog:
+            cur = op[1] if op[0] in ("load", "loads") else (op[0] + ("-" + op[2] if op[0] == "dump" else ""))
+            rep.count(f"realseq:pair:{prev}>{cur}")
+            if op[0] == "put":
+                rep.count("realseq:rewrite:" + op[4])
+            prev = cur
+        if len(rep.samples) < 8 and fam == "recall-load" and n % 17 == 0:
+            rep.samples.append("real history: " + json.dumps(prog)[:400])
+        for i, sig, text in res[:1]:          # the first diverging step names the history
+            found = True
+            rd = conf.replay_dict(sig, [list(o) for o in prog[:i + 1]], [[list(o) for o in q] for _, q in progs[:n]])
+            if rd:
+                rep.violate(sig, text + (" (after the earlier histories of this run)" if "before" in rd else ""), rd)
+    return found
+
+
 def run(ctx, rep):
     rep.rule = ("exhaustive matrix verb x format-class x format-source x otype x name x target x parser under recording "
                 "mocks (tie T), plus bundled real files through every supported cell compared with the direct class "
-                "method; a case is non-trivial when it reaches a class-level codec or an explicit rejection; distinct by cell")
+                "method; a case is non-trivial when it reaches a class-level codec or an explicit rejection; distinct by cell. "
+                "Histories: 'call, change the source, call again' for every cell (quick: every cell with parser 'molli' and a "
+                "quarter of the other spellings) plus random histories under one persistent mock environment, compared "
+                "step by step with Model/DispatchSeq.v `run` by the kernel; directed and random histories on real files / "
+                "objects / streams, each step compared with the class-level codec applied to the source as it is now; "
+                "distinct by history")
     rep.trusted += ["T-emitter harness/c09.py (recording mocks around molli.load/loads/load_all/loads_all/dump/dumps)",
                     "CPython 3.12 executing molli/reader.py and molli/writer.py",
-                    "class-level codecs themselves are NOT verified here (C07, C08)"]
+                    "class-level codecs themselves are NOT verified here (C07, C08)",
+                    "T-emitter for histories: harness/c09.py observe_prog (token texts <Dn>/<W:..> written to and parsed from "
+                    "the files/streams; the Python mirror py_step only NAMES a diverging step, Coq check_seq decides)"]
     rep.assumptions += ["format strings are only compared with literals / set membership, so five representatives "
                         "(xyz, mol2, cdxml, an openbabel-only one, an unknown one) cover all strings",
-                        "openbabel is not installed: parser='openbabel' cells are outside the matrix"]
+                        "openbabel is not installed: parser='openbabel' cells are outside the matrix",
+                        "histories: whether a REFUSED dump (unsupported format) created or truncated the path it was given "
+                        "is not observed (the property does not say); the file is put back before the next step"]
     rows = gen_table(ctx)
     for c, a in rows:
         rep.case(key=cell_term(c))
@@ -415,6 +1223,16 @@ def run(ctx, rep):
         if r:
             found = True
             rep.violate(r[0], r[1], {"kind": "real", "desc": list(desc)})
+    # histories: hidden state between calls (mocks -> Coq model of histories; real files -> class-level codec now)
+    import time, warnings
+    t1 = time.time()
+    found = run_seq_mocks(ctx, rep, coq=ok) or found
+    t2 = time.time()
+    with warnings.catch_warnings():
+        warnings.simplefilter("ignore")
+        found = run_real_seqs(ctx, rep) or found
+    rep.extra["timing_s"] = {"table+props+oneshot": round(t1 - ctx.t0, 1), "histories_mocks": round(t2 - t1, 1),
+                             "histories_real": round(time.time() - t2, 1)}
     if not ok:
         # search: name the cells where the regenerated table and the spec differ
         bad = [(c, a) for c, a in rows if a.split(" (*")[0] != py_spec(c)]
@@ -439,4 +1257,21 @@ def replay(ctx, data):
                 r = judge_real(desc, ep, cm, kind)
                 if r:
                     out.append(vlib.Violation(r[0], r[1]))
+    elif data.get("kind") == "seq":
+        for n, q in enumerate(data.get("before", [])):
+            observe_prog(ml, [op_unjson(j) for j in q], os.path.join(ctx.sub("rpseq"), f"b{n}"))
+        prog = [op_unjson(j) for j in data["prog"]]
+        _, obs = observe_prog(ml, prog, os.path.join(ctx.sub("rpseq"), "p"))
+        r = judge_prog(prog, obs)
+        if r:
+            out.append(vlib.Violation(r[0], r[1]))
+    elif data.get("kind") == "realseq":
+        prog = [tuple(o) for o in data["prog"]]
+        import warnings
+        warnings.simplefilter("ignore")
+        rw = RealWorld(ml)
+        for n, q in enumerate(data.get("before", [])):
+            run_real_prog(rw, [tuple(o) for o in q], os.path.join(ctx.sub("rprealseq"), f"b{n}"))
+        for i, sig, text in run_real_prog(rw, prog, os.path.join(ctx.sub("rprealseq"), "h"))[:1]:
+            out.append(vlib.Violation(sig, text))
     return out
